@@ -19,13 +19,14 @@ structure EncInv (e : Enc) : Prop where
 private theorem consume (e : Enc) (v : EncInv e) (s : SurfInfo)
     (hc : e.iter.currentP = some (some s)) :
     ∃ it', e.iter.advanceP = some it' ∧ EncInv { e with iter := it', written := e.written + s.len } ∧
-      abs it' = min (abs e.iter + 1) (count e.iter) ∧ count it' = count e.iter := by
-  obtain ⟨it', ha, hi, habs, hcnt, _, _⟩ := advance_refines e.iter v.iter
+      abs it' = min (abs e.iter + 1) (count e.iter) ∧ count it' = count e.iter ∧
+      total it' = total e.iter := by
+  obtain ⟨it', ha, hi, habs, hcnt, htot, _⟩ := advance_refines e.iter v.iter
   obtain ⟨it2, ha2, he⟩ := advance_elapsed e.iter v.iter s hc
   rw [ha] at ha2
   simp only [Option.some.injEq] at ha2
   subst ha2
-  exact ⟨it', ha, ⟨hi, by show e.written + s.len = elapsed it'; rw [he, v.written]⟩, habs, hcnt⟩
+  exact ⟨it', ha, ⟨hi, by show e.written + s.len = elapsed it'; rw [he, v.written]⟩, habs, hcnt, htot⟩
 
 /-- the mipmap generation loop keeps the invariant whatever its outcome, never panics, and
 only moves the cursor forward -/
@@ -51,7 +52,7 @@ private theorem genLoop_inv : ∀ (fuel : Nat) (e : Enc), EncInv e →
         by_cases hs : (!e.sizeOk s.w s.h) = true
         · rw [if_pos hs]; exact ⟨v, by simp, Nat.le_refl _, rfl, rfl, rfl⟩
         · rw [if_neg hs]
-          obtain ⟨it', ha, hinv, habs, hcnt⟩ := consume e v s hr
+          obtain ⟨it', ha, hinv, habs, hcnt, _⟩ := consume e v s hr
           rw [ha]
           simp only
           obtain ⟨h1, h2, h3, h4, h5, h6⟩ := ih _ hinv
@@ -88,7 +89,7 @@ private theorem write_inv (e : Enc) (v : EncInv e) (w h : Nat) (c : Bool) :
         by_cases h3 : (!e.sizeOk s.w s.h) = true
         · rw [if_pos h3]; exact ⟨v, by simp⟩
         · rw [if_neg h3]
-          obtain ⟨it', ha, hinv, _, _⟩ := consume e v s hr
+          obtain ⟨it', ha, hinv, _, _, _⟩ := consume e v s hr
           rw [ha]
           simp only
           by_cases h4 : e.toGen s > 0
@@ -96,6 +97,67 @@ private theorem write_inv (e : Enc) (v : EncInv e) (w h : Nat) (c : Bool) :
             obtain ⟨g1, g2, _⟩ := genLoop_inv 255 _ hinv
             exact ⟨g1, g2⟩
           · rw [if_neg h4]; exact ⟨hinv, by simp⟩
+
+/-- the data length of the layout the cursor walks is not changed by the generation loop -/
+private theorem genLoop_total : ∀ (fuel : Nat) (e : Enc), EncInv e →
+    total (e.genLoop fuel).1.iter = total e.iter := by
+  intro fuel
+  induction fuel with
+  | zero => intro e _; rfl
+  | succ fuel ih =>
+    intro e v
+    unfold Enc.genLoop
+    obtain ⟨r, hr, _⟩ := current_total e.iter v.iter
+    rw [hr]
+    cases r with
+    | none => rfl
+    | some s =>
+      simp only
+      by_cases h0 : s.level = 0
+      · rw [if_pos h0]
+      · rw [if_neg h0]
+        by_cases hs : (!e.sizeOk s.w s.h) = true
+        · rw [if_pos hs]
+        · rw [if_neg hs]
+          obtain ⟨it', ha, hinv, _, _, htot⟩ := consume e v s hr
+          rw [ha]
+          simp only
+          rw [ih _ hinv]
+          exact htot
+
+private theorem write_total (e : Enc) (v : EncInv e) (w h : Nat) (c : Bool) :
+    total (e.write w h c).1.iter = total e.iter := by
+  unfold Enc.write
+  obtain ⟨r, hr, _⟩ := current_total e.iter v.iter
+  rw [hr]
+  cases r with
+  | none => rfl
+  | some s =>
+    simp only
+    by_cases h1 : (s.w, s.h) ≠ normSizeE w h
+    · rw [if_pos h1]
+    · rw [if_neg h1]
+      by_cases h2 : c = true
+      · rw [if_pos h2]
+      · rw [if_neg h2]
+        by_cases h3 : (!e.sizeOk s.w s.h) = true
+        · rw [if_pos h3]
+        · rw [if_neg h3]
+          obtain ⟨it', ha, hinv, _, _, htot⟩ := consume e v s hr
+          rw [ha]
+          simp only
+          by_cases h4 : e.toGen s > 0
+          · rw [if_pos h4, genLoop_total 255 _ hinv]; exact htot
+          · rw [if_neg h4]; exact htot
+
+/-- no call changes the layout the encoder walks: its data length stays the same -/
+theorem step_total (e : Enc) (v : EncInv e) (op : EncOp) :
+    total (e.step op).1.iter = total e.iter := by
+  cases op with
+  | setGenerate b => rfl
+  | finish => rfl
+  | write w h => exact write_total e v w h false
+  | writeCancelled w h => exact write_total e v w h true
 
 /-- C11 invariant: after EVERY call — accepted, rejected, or failed while generating a
 mipmap — the bytes written equal the layout offset of the surface reported as next, and no
@@ -138,6 +200,16 @@ theorem history (ops : List EncOp) : ∀ (e : Enc), EncInv e →
     cases hr with
     | inl h => rw [h]; exact h2
     | inr h => exact h4 r h
+
+/-- ... and so does no history of calls -/
+theorem run_total (ops : List EncOp) : ∀ (e : Enc), EncInv e →
+    total (run e ops).1.iter = total e.iter := by
+  induction ops with
+  | nil => intro e _; rfl
+  | cons op rest ih =>
+    intro e v
+    simp only [run]
+    rw [ih _ (step_inv e v op).1, step_total e v op]
 
 /-- Calls rejected for wrong size, too many surfaces, an already cancelled token, or a size
 the format does not support write nothing and leave the encoder exactly as it was. -/
